@@ -706,6 +706,86 @@ impl CodeGenerator {
             return None;
         }
 
+        // The checks above only look at WHICH relations are scanned. Verify by column provenance
+        // that the clauses really are
+        //   rel_bf(X, Y) <- magic(X), edge(X, Y)
+        //   rel_bf(X, Z) <- magic(X), rel_bf(X, Y), edge(Y, Z)
+        // A swapped base clause (`edge(Y, X)`), an extra filter or another projection is not the
+        // bound closure of `edge` and must go through the general fixpoint.
+        type Src = (String, usize);
+        fn provenance(ir: &IRNode, eqs: &mut Vec<(Src, Src)>) -> Option<Vec<Src>> {
+            match ir {
+                IRNode::Scan { relation, schema } => Some(
+                    (0..schema.len())
+                        .map(|i| (relation.clone(), i))
+                        .collect(),
+                ),
+                IRNode::Map {
+                    input, projection, ..
+                } => {
+                    let cols = provenance(input, eqs)?;
+                    projection.iter().map(|&i| cols.get(i).cloned()).collect()
+                }
+                IRNode::Join {
+                    left,
+                    right,
+                    left_keys,
+                    right_keys,
+                    ..
+                } => {
+                    let l = provenance(left, eqs)?;
+                    let r = provenance(right, eqs)?;
+                    if left_keys.len() != right_keys.len() {
+                        return None;
+                    }
+                    for (&a, &b) in left_keys.iter().zip(right_keys.iter()) {
+                        eqs.push((l.get(a)?.clone(), r.get(b)?.clone()));
+                    }
+                    let mut out = l;
+                    if left_keys.is_empty() {
+                        out.extend(r);
+                    } else {
+                        out.extend(
+                            r.into_iter()
+                                .enumerate()
+                                .filter(|(i, _)| !right_keys.contains(i))
+                                .map(|(_, c)| c),
+                        );
+                    }
+                    Some(out)
+                }
+                // filters, computed columns, negation, ...: not the plain pattern
+                _ => None,
+            }
+        }
+        let magic0: Src = (magic_name.clone(), 0);
+        let edge0: Src = (edge_rel.to_string(), 0);
+        let edge1: Src = (edge_rel.to_string(), 1);
+        let rec0: Src = (recursive_rel.to_string(), 0);
+        let rec1: Src = (recursive_rel.to_string(), 1);
+        let same = |e: &(Src, Src), a: &Src, b: &Src| (&e.0 == a && &e.1 == b) || (&e.0 == b && &e.1 == a);
+
+        let mut base_eqs = Vec::new();
+        let base_cols = provenance(&base_inputs[0], &mut base_eqs)?;
+        let base_ok = base_cols.len() == 2
+            && (base_cols[0] == magic0 || base_cols[0] == edge0)
+            && base_cols[1] == edge1
+            && !base_eqs.is_empty()
+            && base_eqs.iter().all(|e| same(e, &magic0, &edge0));
+
+        let mut rec_eqs = Vec::new();
+        let rec_cols = provenance(&recursive_inputs[0], &mut rec_eqs)?;
+        let rec_ok = rec_cols.len() == 2
+            && (rec_cols[0] == magic0 || rec_cols[0] == rec0)
+            && rec_cols[1] == edge1
+            && rec_eqs.iter().any(|e| same(e, &rec1, &edge0))
+            && rec_eqs
+                .iter()
+                .all(|e| same(e, &rec1, &edge0) || same(e, &magic0, &rec0));
+        if !base_ok || !rec_ok {
+            return None;
+        }
+
         Some((edge_rel.to_string(), magic_tuples.clone(), 0))
     }
 
